@@ -230,6 +230,33 @@ func init() {
 		}
 		return ""
 	}
+	// verifContains(s, sub): sub occurs within a run of plain bytes of s (rendered pieces of s
+	// never match)
+	shims["verifContains"] = func(in *Interp, fr *frame, args []value) value {
+		r, sub := in.ropeOf(args[0]), in.ropeOf(args[1])
+		sub.byteLevel("verifContains pattern")
+		n := len(sub.atoms)
+		if n == 0 {
+			return in.tb.True
+		}
+		res := in.tb.False
+		for i := 0; i+n <= len(r.atoms); i++ {
+			c := in.tb.True
+			for j := 0; j < n && c != in.tb.False; j++ {
+				a := r.atoms[i+j]
+				if a.op != nil {
+					c = in.tb.False
+					break
+				}
+				c = in.tb.And(c, in.tb.Eq(a.t, sub.atoms[j].t))
+			}
+			res = in.tb.Or(res, c)
+			if res == in.tb.True {
+				break
+			}
+		}
+		return res
+	}
 	shims["verifEventCount"] = func(in *Interp, fr *frame, args []value) value {
 		return in.intConst(int64(len(in.path.events)))
 	}
